@@ -7,6 +7,7 @@
 //! per-thread stream derived from the same seed (see [`interpose_getrandom!`]).
 //! Time is virtual (patched `web-time` / `futures-timer`).
 
+pub mod alloc;
 pub mod ctx;
 pub mod exec;
 pub mod pipe;
